@@ -366,6 +366,9 @@ func nextStep(g *G, w Weights) Step {
 			}
 		}
 	}
+	if len(cand) == 0 {
+		return goit("status") // none of the requested operations is enabled in this state
+	}
 	o := cand[g.Weighted(ws, "op")]
 	st := o.gen(g)
 	stats.Label("op:" + o.name)
